@@ -187,7 +187,7 @@ def main():
             canaries=[f"{r['unit']}: {r.get('canary')}" for r in results if r.get("canary")],
             cached_units=[r["unit"] for r in results if r.get("cached")],
             samples=samples[:12] or ["(none)"],
-            explanation=P.get("explanation", ""),
+            explanation=P.get("explanation") or (P.get("claim", "") + "  ||  LIMITS / NOT DECIDED: " + P.get("note", "")),
         ),
         assumptions=COMMON_ASSUMPTIONS + P.get("assumptions", []),
         wall_s=round(time.time() - t0, 2),
